@@ -260,9 +260,15 @@ func (s *Solver) introduce(t *Term) {
 		case "var":
 			n := SymName(x.S)
 			if x.Sort == SStr {
-				s.send(fmt.Sprintf("(assert (str.in_re %s %s))", n, bytesRe))
+				// Go strings are byte strings: restrict short free inputs to code points <= 0xFF.
+				// Fixed-length variables (nonces, random bytes) and UF results are left
+				// unrestricted: the regular-expression constraint costs cvc5 seconds per query
+				// on 32/64-character variables, no operation of the encoding distinguishes code
+				// points above 0xFF, and every model is replayed before it is reported.
 				if k, ok := fixedLenOfVar(x.S); ok {
 					s.send(fmt.Sprintf("(assert (= (str.len %s) %d))", n, k))
+				} else {
+					s.send(fmt.Sprintf("(assert (str.in_re %s %s))", n, bytesRe))
 				}
 			}
 			if x.Sort == SInt {
@@ -282,7 +288,16 @@ func (s *Solver) introduce(t *Term) {
 				if k, ok := ufFixedLen[x.S]; ok {
 					s.send(fmt.Sprintf("(assert (= (str.len %s) %d))", x.String(), k))
 				}
-				s.send(fmt.Sprintf("(assert (str.in_re %s %s))", x.String(), bytesRe))
+			}
+			if _, ok := ufAlphabet[x.S]; ok {
+				// the structural simplifier relies on these characters being absent
+				// (the full alphabet is assumed by the simplifier — Eq/StrToCode/StrIndexOf —
+				// and stated here for the two separator characters the library splits on)
+				for _, c := range []string{",", ";"} {
+					if ufFreeOf(x.S, c[0]) {
+						s.send(fmt.Sprintf("(assert (not (str.contains %s \"%s\")))", x.String(), c))
+					}
+				}
 			}
 			existing := s.allApps()
 			top.apps = append(top.apps, x)
